@@ -11,6 +11,7 @@ CONT = [{"op": "put", "k": 1, "v": 4}, {"op": "put", "k": 2, "v": 3}, {"op": "re
 KF_TORN = "KF-C03-torn-primary-tail"
 KF_TRANS = "KF-C09-interrupted-translation"
 KF_CLEANUP = "KF-C10-interrupted-cleanup-of-unusable-entries"
+KF_CLEANUP_SYMPTOMS = [f for f in vlib.known_findings().get("findings", []) if f["id"] == KF_CLEANUP][0]["symptom"]["rules"]
 KNOWN_EXAMPLES = []
 
 
@@ -76,7 +77,7 @@ def run_crash(rep, scens, label, workers=None, collect=None):
             continue
         (st, _), e = bycont[t]
         if scens[st].get("mode") == "upgrade" and (scens[st].get("legacy") or {}).get("lost", 0) > 0 and (e.get("remapMarkersBefore", 0) >= 1 or (e.get("renamesBefore", 0) >= 1 and e.get("renamesAfter", 1) == 0)) \
-                and rules <= {"F2-entry-points-at-bad-primary-record", "F4-live-location-on-freelist", "F3-record-list-order"}:
+                and rules <= set(KF_CLEANUP_SYMPTOMS):
             # known finding: interrupted after an index file holding unusable entries was remapped and before the final flush that drops them
             known[KF_CLEANUP] = known.get(KF_CLEANUP, 0) + 1
             KNOWN_EXAMPLES.append({"id": KF_CLEANUP, "scenario": dict(scens[st], onlyOps=[e["inflight"]["idx"]], maxImgs=0, allTorn=True), "rules": sorted(rules)})
